@@ -320,6 +320,9 @@ def check_C13(ctx):
 # C14
 
 C14_ALPHA = ["\n", "\r", "\t", "a", "中", "é"]
+# Verdicts of the runner's oracle -> `what` strings, one per defect class.  The first two classes were
+# repaired in /repo (F-FMT-1, F-FMT-2): they are REQUIRED to be right now, a regression of either is an
+# unlisted violation under exactly these strings.  Only the last one (F-FMT-3) is a known finding.
 C14_WHAT = {
     "panic-empty-input": "C14 display of empty input panics",
     "panic": "C14 display panics on non-empty input",
